@@ -9,6 +9,7 @@ import (
 	"encoding/json"
 	"errors"
 	"fmt"
+	"hash/crc32"
 	"io"
 	"os"
 	"path/filepath"
@@ -65,12 +66,13 @@ type caseSpec struct {
 	URL          string `json:"url"`           // download: base URL of the content server
 	Signed       bool   `json:"signed"`        // download: signature verification enabled
 	TrustSignet  string `json:"trust_signet"`  // download: base58 recipient signet
+	Mech         string `json:"mech"`          // "" = strace (download: ptrace stepper) | ptrace = stepper for this case
 	Phase        string `json:"phase"`         // trace | kill | err | readers
 	Rounds       int    `json:"rounds"`        // readers: alternations
 }
 
 func (sp caseSpec) sig() string {
-	return fmt.Sprintf("%s|old=%s/%d/%o|new=%d/%o|opts=%s|rd=%s|tmp=%s|d=%d/%v|var=%s/%d|sig=%v", sp.Target, sp.Old, sp.OldSize, sp.OldMode,
+	return fmt.Sprintf("%s%s|old=%s/%d/%o|new=%d/%o|opts=%s|rd=%s|tmp=%s|d=%d/%v|var=%s/%d|sig=%v", sp.Target, sp.Mech, sp.Old, sp.OldSize, sp.OldMode,
 		sp.NewSize, sp.Mode, sp.Opts, sp.Reader, sp.TmpMount, sp.Depth, sp.ParentExists, sp.Variant, sp.Entries, sp.Signed)
 }
 
@@ -187,21 +189,21 @@ func zipBytes(sp caseSpec) []byte {
 			continue
 		}
 		h.SetMode(0o644)
+		if sp.Variant == "corrupt" && i == len(order)-1 {
+			// the last (largest) file carries a wrong CRC: its extraction fails at the very end
+			h.Method = zip.Store
+			h.CRC32 = crc32.ChecksumIEEE(tree[p]) ^ 0x5a5a5a5a
+			h.CompressedSize64 = uint64(len(tree[p]))
+			h.UncompressedSize64 = uint64(len(tree[p]))
+			w, _ := zw.CreateRaw(h)
+			_, _ = w.Write(tree[p])
+			continue
+		}
 		w, _ := zw.CreateHeader(h)
 		_, _ = w.Write(tree[p])
 	}
 	_ = zw.Close()
 	b := buf.Bytes()
-	if sp.Variant == "corrupt" {
-		// flip one byte inside the stored data of the last (largest) file: CRC mismatch at the end of its extraction
-		last := order[len(order)-1]
-		c := tree[last]
-		if len(c) > 8 {
-			if i := bytes.LastIndex(b, c[len(c)-8:]); i >= 0 {
-				b[i] ^= 0xff
-			}
-		}
-	}
 	return b
 }
 
@@ -227,6 +229,11 @@ func buildWorld(sp caseSpec, dir string) *world {
 	case tCreate, tCopy, tReplace:
 		w.dest = filepath.Join(d, sp.Name)
 		w.old, w.new = oldC, newC
+		if strings.Contains(sp.Opts, "xtempdir") && sp.CrossTmp != "" {
+			// explicit temp dir on another mount: the final rename must fail (EXDEV) and leave the old state
+			w.optsDir = filepath.Join(sp.CrossTmp, "t")
+			w.expectErr = true
+		}
 		if strings.Contains(sp.Opts, "tempdir") {
 			w.tempDirs = []string{w.optsDir}
 		} else {
